@@ -443,63 +443,85 @@ inductive Pat
   | sub (p : Pat) (spec : Spec)
 deriving Repr
 
-/-- how the three join algorithms are assigned to the join nodes the lowering creates -/
+/-- the logical algebra produced by the lowering (`LogicalOperator`): joins carry no algorithm yet -/
+inductive Logical
+  | unit
+  | empty
+  | scan (pat : QPat)
+  | union (l r : Logical)
+  | graph (input : Logical) (g : GTerm)
+  | filter (input : Logical) (c : Cond)
+  | join (l r : Logical)
+  | values (vars : List Var) (rows : List (List (Option Val)))
+  | subquery (inner : Logical) (spec : Spec)
+  | bind (input : Logical) (args : List Operand) (out : Var)
+deriving Repr
+
+/-- `append_join`: the unit pattern is a join identity -/
+def appendJoin (l r : Logical) : Logical :=
+  match l, r with
+  | .unit, r => r
+  | l, .unit => l
+  | l, r => .join l r
+
+mutual
+/-- `build_logical_plan_from_group_in_scope`: graph scope carried onto the scans -/
+def lower (scope : GTerm) : Pat → Logical
+  | .unit => .unit
+  | .bgp tps => tps.foldl (fun acc (s, p, o) => appendJoin acc (.scan ⟨s, p, o, scope⟩)) .unit
+  | .group elems =>
+      -- direct FILTERs are deferred to the end of their group
+      lowerFilters (lowerGroup scope .unit elems) elems
+  | .union branches => lowerUnion scope branches
+  | .graph name p => .graph (lower name p) name
+  | .filter c => .filter .unit c
+  | .bind args out => .bind .unit args out
+  | .values vars rows => .values vars rows
+  | .sub p spec => .subquery (lower scope p) spec
+
+def lowerGroup (scope : GTerm) (plan : Logical) : List Pat → Logical
+  | [] => plan
+  | .filter _ :: rest => lowerGroup scope plan rest
+  | .bind args out :: rest => lowerGroup scope (.bind plan args out) rest
+  | e :: rest => lowerGroup scope (appendJoin plan (lower scope e)) rest
+
+def lowerUnion (scope : GTerm) : List Pat → Logical
+  | [] => .empty
+  | b :: rest => .union (lower scope b) (lowerUnion scope rest)
+
+def lowerFilters (plan : Logical) : List Pat → Logical
+  | [] => plan
+  | .filter c :: rest => lowerFilters (.filter plan c) rest
+  | _ :: rest => lowerFilters plan rest
+end
+
+/-- how the three join algorithms are assigned to the join nodes (the cost model's choice, not modelled) -/
 inductive JoinAlg | bind | hash | nl
 deriving DecidableEq, Repr
 
 def mkJoin (alg : JoinAlg) (l r : Plan) : Plan :=
   match alg with | .bind => .bindJoin l r | .hash => .hashJoin l r | .nl => .nlJoin l r
 
-/-- `append_join`: the unit pattern is a join identity.  `algs` is an oracle giving the algorithm of the
-    k-th join node created (the cost model's choice, not modelled); returns the remaining oracle. -/
-def appendJoin (algs : List JoinAlg) (l r : Plan) : Plan × List JoinAlg :=
-  match l, r with
-  | .unit, r => (r, algs)
-  | l, .unit => (l, algs)
-  | l, r => (mkJoin (algs.head?.getD .bind) l r, algs.tail)
-
-mutual
-/-- lowering + join-algorithm choice; graph scope carried onto the scans -/
-def lower (scope : GTerm) (algs : List JoinAlg) : Pat → Plan × List JoinAlg
+/-- `find_best_plan_recursive` with the cost model replaced by an oracle: `algs` lists the algorithm of the
+    k-th join node visited; returns the physical plan and the unused part of the oracle -/
+def implement (algs : List JoinAlg) : Logical → Plan × List JoinAlg
   | .unit => (.unit, algs)
-  | .bgp tps =>
-      tps.foldl (fun (acc : Plan × List JoinAlg) (s, p, o) => appendJoin acc.2 acc.1 (.scan ⟨s, p, o, scope⟩)) (.unit, algs)
-  | .group elems =>
-      let (plan, algs) := lowerGroup scope algs .unit elems
-      -- direct FILTERs are deferred to the end of their group
-      (lowerFilters plan elems, algs)
-  | .union branches => lowerUnion scope algs branches
-  | .graph name p =>
-      let (input, algs) := lower name algs p
-      (.graph input name, algs)
-  | .filter c => (.filter .unit c, algs)
-  | .bind args out => (.bind .unit args out, algs)
+  | .empty => (.empty, algs)
+  | .scan pat => (.scan pat, algs)
+  | .union l r =>
+      let (pl, algs) := implement algs l
+      let (pr, algs) := implement algs r
+      (.union pl pr, algs)
+  | .graph i g => let (pi, algs) := implement algs i; (.graph pi g, algs)
+  | .filter i c => let (pi, algs) := implement algs i; (.filter pi c, algs)
+  | .join l r =>
+      let alg := algs.head?.getD .bind
+      let (pl, algs) := implement algs.tail l
+      let (pr, algs) := implement algs r
+      (mkJoin alg pl pr, algs)
   | .values vars rows => (.values vars rows, algs)
-  | .sub p spec =>
-      let (inner, algs) := lower scope algs p
-      (.subquery inner spec, algs)
-
-def lowerGroup (scope : GTerm) (algs : List JoinAlg) (plan : Plan) : List Pat → Plan × List JoinAlg
-  | [] => (plan, algs)
-  | .filter _ :: rest => lowerGroup scope algs plan rest
-  | .bind args out :: rest => lowerGroup scope algs (.bind plan args out) rest
-  | e :: rest =>
-      let (next, algs) := lower scope algs e
-      let (plan, algs) := appendJoin algs plan next
-      lowerGroup scope algs plan rest
-
-def lowerUnion (scope : GTerm) (algs : List JoinAlg) : List Pat → Plan × List JoinAlg
-  | [] => (.empty, algs)
-  | b :: rest =>
-      let (l, algs) := lower scope algs b
-      let (r, algs) := lowerUnion scope algs rest
-      (.union l r, algs)
-
-def lowerFilters (plan : Plan) : List Pat → Plan
-  | [] => plan
-  | .filter c :: rest => lowerFilters (.filter plan c) rest
-  | _ :: rest => lowerFilters plan rest
-end
+  | .subquery i spec => let (pi, algs) := implement algs i; (.subquery pi spec, algs)
+  | .bind i args out => let (pi, algs) := implement algs i; (.bind pi args out, algs)
 
 /-! ## SELECT (`execute_select`, `finalize_select`) -/
 
@@ -556,7 +578,7 @@ def finalizeSelect (q : Select) (rows : List Row) : List (List (Option Val)) :=
 /-- the whole SELECT pipeline with a join-algorithm oracle -/
 def runSelect (db : DB) (q : Select) (algs : List JoinAlg) : List (List (Option Val)) :=
   let view := datasetView db q
-  let plan := (lower .dflt algs q.where_).1
+  let plan := (implement algs (lower .dflt q.where_)).1
   finalizeSelect q (exec db plan ⟨view, none⟩ [[]])
 
 end Kolibrie.Engine
